@@ -183,6 +183,115 @@ func VerifC28NewSession() {
 	rt.Reach("end")
 }
 
+// VerifC28Resubscribe: the node subscribes, releases its last subscription and subscribes again while
+// its sessions stay up (with or without a router sweep in between): every existing session ends up
+// told that the node subscribes, so the channel's messages keep being flooded to it.
+func VerifC28Resubscribe() {
+	rt.SchedBound(0, false)
+	m := c27Node(nil)
+	ctx, cancel := context.WithCancel(context.Background())
+	rt.Go("router", func() { _ = m.Execute(ctx) })
+	rt.Quiesce()
+	var wires []*c28Wire
+	link := uint64(1)
+	addSession := func() {
+		w := &c28Wire{hold: make(chan struct{})}
+		wires = append(wires, w)
+		s := &streamHandler{m: m, le: m.le, packetCh: make(chan *Packet, 32), peerID: "\x00\x01P",
+			tpl: pubsub.PeerLinkTuple{PeerID: "\x00\x01P", LinkID: link}, stream: stream_packet.NewSession(w, maxMessageSize)}
+		link++
+		m.mtx.Lock()
+		m.peers[s.tpl] = s
+		m.incSessions = append(m.incSessions, s)
+		m.mtx.Unlock()
+		m.wake()
+	}
+	settle := func() {
+		rt.Quiesce()
+		rt.FireTickers()
+		rt.Quiesce()
+	}
+	if rt.Choose("sessionFirst", 2) == 1 {
+		addSession()
+		settle()
+	}
+	sub, err := m.AddSubscription(ctx, c28PrivKey(), "x")
+	rt.Assert("subscribe", err == nil)
+	settle()
+	if len(wires) == 0 {
+		addSession()
+		settle()
+	}
+	for _, w := range wires {
+		rt.Assert("told about the first subscription", c28Announced(w)["x"])
+	}
+	sub.Release()
+	if rt.Choose("sweepBetween", 2) == 1 {
+		settle()
+		rt.Reach("unsubscribe swept")
+	}
+	_, err = m.AddSubscription(ctx, c28PrivKey(), "x")
+	rt.Assert("subscribe again", err == nil)
+	settle()
+	for _, w := range wires {
+		rt.Assert("after re-subscribing every existing session is told the node subscribes", c28Announced(w)["x"])
+	}
+	cancel()
+	for _, w := range wires {
+		close(w.hold)
+	}
+	rt.Quiesce()
+	rt.Reach("end")
+}
+
+// VerifC28LocalPublish: a message published locally (signed by a key other than the node's transport
+// identity) is handed to the local subscription once and flooded once; when a neighbour that heard it
+// on another path relays it back, it is neither handed to the local subscription again nor re-flooded.
+func VerifC28LocalPublish() {
+	rt.SchedBound(0, false)
+	m := c27Node([]string{"x"})
+	ctx, cancel := context.WithCancel(context.Background())
+	sk, _, _ := c27Key("seed")
+	P, Q := peer.ID("\x00\x01P"), peer.ID("\x00\x01Q")
+	mk := func(p peer.ID, link uint64) *streamHandler {
+		s := &streamHandler{m: m, le: m.le, packetCh: make(chan *Packet, 8), ctx: ctx, peerID: p, tpl: pubsub.PeerLinkTuple{PeerID: p, LinkID: link}}
+		m.peers[s.tpl] = s
+		if m.peerChannels["x"] == nil {
+			m.peerChannels["x"] = make(map[pubsub.PeerLinkTuple]struct{})
+		}
+		m.peerChannels["x"][s.tpl] = struct{}{}
+		return s
+	}
+	p, q := mk(P, 1), mk(Q, 2)
+	rt.Go("router", func() { _ = m.Execute(ctx) })
+	rt.Quiesce()
+	err := m.Publish(ctx, "x", sk, []byte{1})
+	rt.Assert("publish", err == nil)
+	rt.Quiesce()
+	rt.Assert("the local subscription sees the local publish once", rt.LogLen("delivered:x") == 1)
+	var relayed []*peer.SignedMsg
+	np := 0
+	for len(p.packetCh) > 0 {
+		pk := <-p.packetCh
+		np += len(pk.GetPublish())
+		relayed = append(relayed, pk.GetPublish()...)
+	}
+	nq := 0
+	for len(q.packetCh) > 0 {
+		pk := <-q.packetCh
+		nq += len(pk.GetPublish())
+	}
+	rt.Assert("flooded once to each subscribed neighbour", np == 1 && nq == 1)
+	// Q heard it from P and relays it back to us
+	q.handlePublish(relayed)
+	rt.Quiesce()
+	rt.Assert("a relayed-back local publish is not handed to the local subscription again", rt.LogLen("delivered:x") == 1)
+	rt.Assert("a relayed-back local publish is not flooded again", len(p.packetCh)+len(q.packetCh) == 0)
+	cancel()
+	rt.Quiesce()
+	rt.Reach("end")
+}
+
 func c28PrivKey() crypto.PrivKey {
 	seed := make([]byte, 32)
 	seed[0] = 3
